@@ -463,6 +463,8 @@ class DocutilsRenderer(RendererProtocol):
         for token in tokens or []:
             if token.type == "text":
                 result += token.content
+            elif token.type == "softbreak":
+                result += "\n"
             # elif token.type == "image":
             #     result += self.renderInlineAsText(token.children)
             else:
